@@ -98,3 +98,18 @@ pub fn run_seq(w: &[&str]) -> String {
     }
     out.join(";")
 }
+
+/// `size head <byte>` / `size tail <hex>`: `decode::info::Size`.
+pub fn run_size(w: &[&str]) -> String {
+    use minicbor::decode::info::Size;
+    let b = match w.get(1).and_then(|h| unhex(h)) { Some(b) => b, None => return "bad-op".into() };
+    match w[0] {
+        "head" => { if b.len() != 1 { return "bad-op".into() }
+            match Size::head(b[0]) { Ok(n) => format!("ok {}", n), Err(e) => format!("err {}", dclass(&e)) } }
+        "tail" => match Size::tail(&b) {
+            Ok(Size::Head) => "ok head".into(), Ok(Size::Bytes(n)) => format!("ok bytes:{}", n),
+            Ok(Size::Items(n)) => format!("ok items:{}", n), Ok(Size::Indef) => "ok indef".into(),
+            Err(e) => format!("err {}", dclass(&e)) },
+        _ => "bad-op".into()
+    }
+}
